@@ -573,6 +573,10 @@ func grpcExtractTimeoutFromHeaders(headers http.Header, meta *requestMeta) error
 		return nil
 	}
 	timeout, err := grpcDecodeTimeout(timeoutStr)
+	if errors.Is(err, errNoTimeout) {
+		// Valid, but so long that it is effectively unbounded.
+		return nil
+	}
 	if err != nil {
 		return err
 	}
